@@ -331,7 +331,8 @@ func layRender(l *layCase) map[string]string {
 					}
 					if selected {
 						// notation lines interleaved with prose: every notation line goes, every prose line stays
-						fmt.Fprintf(&sb, "\t// :typecast\n\t// second paragraph tokME%s%d\n\t// :stringer\n\t// :getter:off\n\t// last line tokMF%s%d\n", it.ID, k, it.ID, k)
+						// the prose holds characters that are special to templates and format strings: prose is prose
+						fmt.Fprintf(&sb, "\t// :typecast\n\t// second paragraph tokME%s%d costs $tokMH%s%d or ${tokMI%s%d} and 100%%d of $1\n\t// :stringer\n\t// :getter:off\n\t// last line tokMF%s%d\n", it.ID, k, it.ID, k, it.ID, k, it.ID, k)
 					}
 				}
 				tr := ""
@@ -501,6 +502,10 @@ func layProject(l *layCase, src []byte) (*layObs, error) {
 				doc := true
 				if it.Mdoc {
 					doc = docHas(x.Doc, fmt.Sprintf("tokMD%s%d", it.ID, k)) && docHas(x.Doc, fmt.Sprintf("tokME%s%d", it.ID, k)) && docHas(x.Doc, fmt.Sprintf("tokMF%s%d", it.ID, k))
+					if want := fmt.Sprintf("costs $tokMH%s%d or ${tokMI%s%d} and 100%%d of $1", it.ID, k, it.ID, k); !docHas(x.Doc, want) {
+						doc = false
+						o.Problems = append(o.Problems, fmt.Sprintf("the prose of the doc of method %s did not arrive as written (%q)", name, want))
+					}
 					if it.Mention && !docHas(x.Doc, fmt.Sprintf("tokMG%s%d", it.ID, k)) {
 						doc = false
 						o.Problems = append(o.Problems, "the prose line of the doc of method "+name+" that mentions a directive is not in the function's doc")
